@@ -20,5 +20,18 @@ func SortedEntries[M ~map[K]V, K cmp.Ordered, V any](m M) []Entry[K, V] {
 		out = append(out, Entry[K, V]{k, v})
 	}
 	sort.Slice(out, func(i, j int) bool { return out[i].K < out[j].K })
+	// Go starts a map iteration at a random position: the tape chooses where this one starts (0 keeps
+	// key order) and whether it runs backwards, so order-dependent behaviour is explored and replays
+	if s := S(); s != nil && !s.ending && len(out) > 1 {
+		k := s.Tape.Choose(len(out), "map.range.start")
+		if k > 0 {
+			out = append(append(make([]Entry[K, V], 0, len(out)), out[k:]...), out[:k]...)
+		}
+		if len(out) > 2 && s.Tape.Choose(2, "map.range.reverse") == 1 {
+			for i, j := 0, len(out)-1; i < j; i, j = i+1, j-1 {
+				out[i], out[j] = out[j], out[i]
+			}
+		}
+	}
 	return out
 }
